@@ -236,6 +236,11 @@ def cases(rng):
       kernel_regularizer=["torsion", 0.1, 0.2], average_outputs=False, name="rtl_full", trainable=False)
   add("rtl_layer", "RTL", "kfl_avg", num_lattices=2, lattice_rank=2, parameterization="kronecker_factored", num_terms=3,
       average_outputs=True, random_seed=3, kernel_regularizer=None, kernel_initializer="kfl_random_monotonic_initializer")
+  # the seed is a constructor argument like any other: None (documented default of np.random.RandomState: OS entropy)
+  # and integers drawn by the run (F-C11-i: with None the rebuilt layer has another structure)
+  add("rtl_layer", "RTL", "seed_none", num_lattices=4, lattice_rank=2, random_seed=None)
+  add("rtl_layer", "RTL", "seed_drawn", num_lattices=rng.choice([3, 4]), lattice_rank=2, lattice_size=rng.choice([2, 3]),
+      random_seed=rng.randrange(2 ** 31), avoid_intragroup_interaction=rng.choice([True, False]))
   add("parallel_combination_layer", "ParallelCombination", "full", calibration_layers="layers", single_output=False,
       name="pc_full")
   add("aggregation_layer", "Aggregation", "premade_inner", model="premade_inner", name="agg_full")
@@ -273,6 +278,8 @@ def cases(rng):
                 ("AggregateFunction", "aggregate")):
     add("premade", m, "named", model_config=mc, name="premade_" + mc, trainable=False)
     add("premade", m, "float64", model_config=mc, dtype="float64")
+  add("premade", "CalibratedLatticeEnsemble", "rtl_seed_none", model_config="ensemble_rtl_none")
+  add("premade", "CalibratedLatticeEnsemble", "rtl_seed_drawn", model_config="ensemble_rtl_drawn")
   return C
 
 
@@ -281,6 +288,24 @@ def _feature_configs(n=2):
   names = ["a", "b", "c"][:n]
   return [configs.FeatureConfig(nm, pwl_calibration_input_keypoints=[0.0, 1.0, 2.0], monotonicity="increasing" if i == 0 else "none")
           for i, nm in enumerate(names)]
+
+
+def _feature_configs5():
+  from tensorflow_lattice.python import configs
+  return [configs.FeatureConfig(nm, pwl_calibration_input_keypoints=[0.0, 1.0, 2.0], monotonicity="increasing" if i < 2 else "none")
+          for i, nm in enumerate("abcde")]
+
+
+_DRAWN_SEED = [12345]     # set by run() from the run's PRNG
+
+
+def seed_is_none(obj):
+  """an object whose seed-derived structure is drawn from the OS at every build: RTL(random_seed=None), a premade
+  ensemble with lattices='rtl_layer' and random_seed=None (F-C11-i)"""
+  if type(obj).__name__ == "RTL":
+    return obj.random_seed is None
+  mc = getattr(obj, "model_config", None)
+  return mc is not None and getattr(mc, "lattices", None) == "rtl_layer" and getattr(mc, "random_seed", 0) is None
 
 
 def materialize(mod, cls, kw):
@@ -311,6 +336,12 @@ def materialize(mod, cls, kw):
                                                                   output_initialization=[0.0, 1.0]),
       "aggregate": lambda: configs.AggregateFunctionConfig(feature_configs=_feature_configs(2), middle_dimension=2,
                                                            output_initialization=[0.0, 1.0]),
+      "ensemble_rtl_none": lambda: configs.CalibratedLatticeEnsembleConfig(
+          feature_configs=_feature_configs5(), lattices="rtl_layer", num_lattices=4, lattice_rank=2,
+          output_initialization=[0.0, 1.0], random_seed=None),
+      "ensemble_rtl_drawn": lambda: configs.CalibratedLatticeEnsembleConfig(
+          feature_configs=_feature_configs5(), lattices="rtl_layer", num_lattices=4, lattice_rank=2,
+          output_initialization=[0.0, 1.0], random_seed=_DRAWN_SEED[0]),
   }
   for k, v in list(kw.items()):
     if isinstance(v, str) and v in sub and k in ("calibration_layers", "reflects_trust_in", "dominates", "regularizer_configs",
@@ -515,6 +546,8 @@ NORM = {"@ = utils.canonicalize_monotonicities(_, allow_decreasing=False)": "can
         "@ = utils.canonicalize_trust(_)": "canonicalize_trust",
         "@ = utils.canonicalize_unimodalities(_)": "canonicalize_unimodalities",
         "if isinstance(_, tuple) and isinstance(_[0], int): @ = [_] else: @ = _": "wrap_single",
+        # the same wrap with the `and _` guard (Lattice.__init__ after the repair proposed for F-C16-aj)
+        "if isinstance(_, tuple) and _ and isinstance(_[0], int): @ = [_] else: @ = _": "wrap_single",
         "if isinstance(_, list) or isinstance(_, tuple): @ = list(_) elif _ is not None: @ = [_] * self.num_input_dims else: @ = [0] * self.num_input_dims": "linear_monotonicities",
         "if _ is None: @ = float(num_keypoints) else: @ = float(_)": "float_or_num_keypoints",
         "as_tuples = lambda ps: [tuple(p) for p in ps] if ps else ps; @ = as_tuples(_)": "as_tuples",
@@ -742,11 +775,15 @@ def check_object(ctx, cls, label, mod, kw, seed, lines, pend):
       except Exception as e:  # pylint: disable=broad-except
         oracle_fail(ctx, cls, "outputs_equal", rc, "%s: %s" % (type(e).__name__, (str(e).splitlines() or [""])[0][:240]),
                     "the rebuilt object cannot be evaluated / projected",
-                    arg="list_valued_pair" if "unhashable" in str(e) else None)
+                    arg="list_valued_pair" if "unhashable" in str(e) else
+                    # a differently wired rebuild has groups of other sizes: `set_weights` refuses the original weights
+                    ("random_seed=None" if seed_is_none(obj) and isinstance(e, ValueError) and "weight" in str(e).lower()
+                     else None))
         continue
       if not same_arrays(ref["out"], got["out"]):
         oracle_fail(ctx, cls, "outputs_equal", rc, dict(before=ref["out"][:2], after=got["out"][:2]),
-                    "outputs / projections / structure differ after the round trip")
+                    "outputs / projections / structure differ after the round trip",
+                    arg="random_seed=None" if seed_is_none(obj) else None)
       else:
         ctx.count("outputs_equal:%s" % kind)
 
@@ -924,22 +961,44 @@ def model_cls(name):
 
 
 def run_structures(ctx):
-  """RTL / random-ensemble structure is a function of the stored config (seed included)"""
+  """RTL / random-ensemble structure is a function of the stored config (seed included): a layer rebuilt from
+  get_config() has the same `_rtl_structure` and, given the original weights, identical outputs. Seeds: fixed ones,
+  integers drawn by the run, and None (np.random.RandomState(None): OS entropy — F-C11-i)."""
   from tensorflow_lattice.python import configs, premade_lib, rtl_layer
   import tensorflow as tf
-  for seed in (1, 7, 42):
+  seeds = [1, 7, 42, None, None] + [ctx.rng.randrange(2 ** 31) for _ in range(ctx.n(4, 40))]
+  for seed in seeds:
     for avoid in (True, False):
-      kw = dict(num_lattices=4, lattice_rank=2, random_seed=seed, avoid_intragroup_interaction=avoid)
+      nl = ctx.rng.choice([4, 5, 6])
+      kw = dict(num_lattices=nl, lattice_rank=2, random_seed=seed, avoid_intragroup_interaction=avoid)
       a = rtl_layer.RTL(**kw)
       b = rtl_layer.RTL.from_config(a.get_config())
-      x = {"unconstrained": tf.zeros((2, 3)), "increasing": tf.zeros((2, 2))}
-      a(x), b(x)
-      ctx.case(sig=("rtl_structure", seed, avoid))
-      if canon(a._rtl_structure) != canon(b._rtl_structure):
-        oracle_fail(ctx, "RTL", "outputs_equal", dict(stream="structure", kw=kw), dict(a=canon(a._rtl_structure), b=canon(b._rtl_structure)),
-                    "RTL structure differs after a rebuild from the config")
+      rs = np.random.RandomState(ctx.rng.randrange(10 ** 6))
+      x = {"unconstrained": tf.constant(rs.uniform(0, 1, (4, 4)), dtype=tf.float32),
+           "increasing": tf.constant(rs.uniform(0, 1, (4, 3)), dtype=tf.float32)}
+      ya = a(x)
+      b(x)
+      ctx.case(sig=("rtl_structure", "none" if seed is None else ("fixed" if seed in (1, 7, 42) else "drawn"), avoid),
+               nontrivial=True, sample=dict(stream="structure", kw=repr(kw)))
+      ctx.count("structure_seed:%s" % ("none" if seed is None else "int"))
+      case = dict(stream="structure", kw=kw)
+      arg = "random_seed=None" if seed is None else None
+      if canon(a.get_config()) != canon(b.get_config()):
+        oracle_fail(ctx, "RTL", "config_equal", case, dict(a=canon(a.get_config()), b=canon(b.get_config())))
+        continue
+      same_structure = canon(a._rtl_structure) == canon(b._rtl_structure)
+      outputs_equal = False
+      if same_structure:
+        b.set_weights(a.get_weights())
+        outputs_equal = same_arrays(flat_np(ya), flat_np(b(x)))
+      if not (same_structure and outputs_equal):
+        oracle_fail(ctx, "RTL", "outputs_equal", case,
+                    dict(a=canon(a._rtl_structure), b=canon(b._rtl_structure), same_structure=same_structure),
+                    "RTL structure / outputs differ after a rebuild from an EQUAL config", arg=arg)
       else:
         ctx.count("structure_equal:RTL")
+    if seed is None:
+      continue
     mk = lambda: configs.CalibratedLatticeEnsembleConfig(feature_configs=_feature_configs(3), lattices="random", num_lattices=3,
                                                          lattice_rank=2, random_seed=seed, output_initialization=[0.0, 1.0])
     m1, m2 = mk(), configs.CalibratedLatticeEnsembleConfig.from_config(mk().get_config(), custom_objects=custom_objects())
@@ -951,11 +1010,24 @@ def run_structures(ctx):
                   dict(a=m1.lattices, b=m2.lattices), "random ensemble differs after a rebuild from the config")
     else:
       ctx.count("structure_equal:random_ensemble")
+  # lattices='random' with random_seed=None: the setter STORES the drawn ensemble in the config, so the round trip of the
+  # config (and of a model built from it) reproduces it without drawing again
+  mc = configs.CalibratedLatticeEnsembleConfig(feature_configs=_feature_configs(3), lattices="random", num_lattices=3,
+                                               lattice_rank=2, random_seed=None, output_initialization=[0.0, 1.0])
+  premade_lib.set_random_lattice_ensemble(mc)
+  mc2 = configs.CalibratedLatticeEnsembleConfig.from_config(mc.get_config(), custom_objects=custom_objects())
+  ctx.case(sig=("random_ensemble_stored", "none"))
+  if mc.lattices != mc2.lattices or not isinstance(mc2.lattices, list):
+    oracle_fail(ctx, "CalibratedLatticeEnsembleConfig", "config_equal", dict(stream="structure", seed=None),
+                dict(a=mc.lattices, b=mc2.lattices), "the drawn random ensemble is not stored in the config")
+  else:
+    ctx.count("structure_equal:random_ensemble_stored")
 
 
 def run(ctx):
   import tensorflow as tf
   regenerate()
+  _DRAWN_SEED[0] = ctx.rng.randrange(2 ** 31)
   lines, pend = [], []
   seen_nd = {}
   for cls, label, mod, kw in cases(ctx.rng):
